@@ -38,6 +38,60 @@ pub fn main(args: &[String]) -> i32 {
     }
 }
 
+/// Number of simulated threads that are inside a sink `append` call right now. If the process
+/// wedges (no scheduling step for a long time) while this is non-zero, an append is blocked or
+/// spinning for real -- which is exactly what "appending never blocks" forbids.
+pub static IN_APPEND: std::sync::atomic::AtomicU64 = std::sync::atomic::AtomicU64::new(0);
+
+/// What the watchdog needs to turn such a wedge into a reported violation.
+pub struct WedgeReport {
+    pub prop: String,
+    pub scenario: String,
+    pub index: u64,
+    pub plan: Value,
+    /// worker mode: the result file to write; replay mode: the --emit file, if any
+    pub out: Option<PathBuf>,
+    pub replay_mode: bool,
+    pub base: u64,
+}
+pub static WEDGE: std::sync::Mutex<Option<WedgeReport>> = std::sync::Mutex::new(None);
+
+fn on_stuck(stuck: u64) -> ! {
+    use std::sync::atomic::Ordering;
+    if IN_APPEND.load(Ordering::SeqCst) > 0 {
+        if let Some(w) = WEDGE.lock().ok().and_then(|mut g| g.take()) {
+            let class = "append_blocked_outside_simulator";
+            let msg = format!("no scheduling step for {stuck} s of real time while a thread was inside append(): the append is blocked (or spinning) in something the simulator does not own");
+            if w.replay_mode {
+                if let Some(out) = &w.out {
+                    write_json(out, &json!({"class": class, "message": msg, "invalid_plan": false, "harness_error": Value::Null, "decisions": [], "outcome": {"hash": "wedge"}, "history": Value::Null}));
+                }
+                println!("RESULT class={class} hash=wedge");
+                println!("violation: [{class}] {msg}");
+                println!("VIOLATION property={} replay=(this file)", w.prop);
+                std::process::exit(1);
+            }
+            let replay_path = root().join("replays").join(format!("{}-{}-{:016x}.json", w.prop, w.scenario, run_seed(w.base, &w.prop, w.index)));
+            write_json(&replay_path, &json!({
+                "property": w.prop, "scenario": w.scenario, "run_index": w.index,
+                "violation": {"class": class, "message": msg},
+                "plan": w.plan,
+            }));
+            if let Some(out) = &w.out {
+                write_json(out, &json!({
+                    "start": w.index, "count": 1, "next": w.index + 1, "done": 1,
+                    "stats": {}, "faults": {}, "probes": {}, "nontrivial": 0, "rechecked": 0, "sigs": [], "states": [],
+                    "scenario_runs": {}, "samples": [], "wall_s": 0.0, "harness_error": Value::Null,
+                    "violation": {"index": w.index, "scenario": w.scenario, "class": class, "message": msg, "replay": replay_path.to_string_lossy()},
+                }));
+            }
+            std::process::exit(0);
+        }
+    }
+    eprintln!("HARNESS-ERROR watchdog: no scheduling step for {stuck}s of real time (a simulated thread is stuck outside the simulator's seams)");
+    std::process::exit(2);
+}
+
 fn process_setup(subscriber: bool, cpu: Option<usize>) {
     if let Some(c) = cpu {
         detsim::pin_to_cpu(c);
@@ -49,7 +103,8 @@ fn process_setup(subscriber: bool, cpu: Option<usize>) {
     metrique_writer::__verif_pin_epoch();
     // real-time watchdog: a wedged simulation must never hang a check
     std::thread::spawn(|| {
-        let limit: u64 = std::env::var("VERIF_WATCHDOG_S").ok().and_then(|s| s.parse().ok()).unwrap_or(0);
+        // (a replay started by hand gets a generous default so that a wedging replay file ends too)
+        let limit: u64 = std::env::var("VERIF_WATCHDOG_S").ok().and_then(|s| s.parse().ok()).unwrap_or(1800);
         if limit > 0 {
             // two ways out: the overall limit, or no scheduling step at all for `stuck` seconds
             // (a simulated thread sits in a real lock held by a descheduled one, or the code under
@@ -63,8 +118,7 @@ fn process_setup(subscriber: bool, cpu: Option<usize>) {
                 if now != last.0 || !detsim::run_active() {
                     last = (now, Instant::now());
                 } else if last.1.elapsed().as_secs() >= stuck {
-                    eprintln!("HARNESS-ERROR watchdog: no scheduling step for {stuck}s of real time (a simulated thread is stuck outside the simulator's seams)");
-                    std::process::exit(2);
+                    on_stuck(stuck);
                 }
                 if t0.elapsed().as_secs() >= limit {
                     eprintln!("HARNESS-ERROR watchdog: process exceeded {limit}s of real time");
@@ -216,6 +270,10 @@ fn worker(args: &[String]) -> i32 {
         };
         debug_assert_eq!(subscriber_for(index, chunk), subscriber);
         let scen = &scens[which];
+        if prop == "C09" {
+            // (only where "append never blocks" is the property: the plan is cloned for the watchdog)
+            *WEDGE.lock().unwrap() = Some(WedgeReport { prop: prop.clone(), scenario: scen.name().to_string(), index, plan: plan.clone(), out: Some(out.clone()), replay_mode: false, base });
+        }
         let rep = run_scenario(scen.as_ref(), &plan);
         done += 1;
         *scen_runs.entry(scen.name().to_string()).or_insert(0) += 1;
@@ -320,6 +378,12 @@ fn run_plan_file(file: &Value, trace: bool) -> Option<(Report, Value)> {
         plan["trace"] = json!(true);
     }
     let scen = find_scenario(&prop, &name)?;
+    if let Ok(mut g) = WEDGE.lock() {
+        if let Some(w) = g.as_mut() {
+            w.prop = prop.clone();
+            w.scenario = name.clone();
+        }
+    }
     let rep = run_scenario(scen.as_ref(), &plan);
     Some((rep, plan))
 }
@@ -337,6 +401,7 @@ fn replay(args: &[String]) -> i32 {
     };
     let plan0 = file.get("plan").cloned().unwrap_or_else(|| file.clone());
     process_setup(jb(&plan0, "subscriber", false), Some(0));
+    *WEDGE.lock().unwrap() = Some(WedgeReport { prop: String::new(), scenario: String::new(), index: 0, plan: Value::Null, out: arg(args, "--emit").map(PathBuf::from), replay_mode: true, base: 0 });
     let Some((rep, _plan)) = run_plan_file(&file, trace) else {
         eprintln!("unknown scenario in {path}");
         return 2;
@@ -826,6 +891,7 @@ impl Tester {
         let mut child = Command::new(exe)
             .args(["replay", p.to_str().unwrap(), "--quiet", "--emit", e.to_str().unwrap()])
             .env("VERIF_WATCHDOG_S", "30")
+            .env("VERIF_STUCK_S", "6")
             .stdin(Stdio::null())
             .stdout(Stdio::null())
             .stderr(Stdio::null())
